@@ -43,13 +43,18 @@ def check_write_file(ctx, prop, obj, args=(), kind="text"):
         shutil.rmtree(d, ignore_errors=True)
 
 
-def check_read_file(ctx, prop, cls, content, args=(), read_arg=None, encoding="utf8"):
-    """content: str or bytes as stored on disk; read_arg: what read() takes for the same content (default: derived)."""
+def check_read_file(ctx, prop, cls, content, args=(), read_arg=None, encoding="utf8", bom=None):
+    """content: str or bytes as stored on disk; read_arg: what read() takes for the same content (default: derived).
+    bom: store the text with a UTF-8 byte order mark (as Windows editors and osu! itself save files); default: every fourth case."""
     mon = "fileio.read_file"
     d = tempfile.mkdtemp(prefix="rv_io_")
+    if bom is None:
+        bom = isinstance(content, str) and encoding == "utf8" and (ctx.cur_k or 0) % 4 == 0
     try:
         path = os.path.join(d, "in.bin")
         raw = content if isinstance(content, bytes) else content.encode(encoding)
+        if bom:
+            raw = b"\xef\xbb\xbf" + raw
         with open(path, "wb") as f:
             f.write(raw)
         try:
@@ -61,11 +66,47 @@ def check_read_file(ctx, prop, cls, content, args=(), read_arg=None, encoding="u
             b = cls.read_file(path, *args)
         except Exception as e:
             return ctx.violate(prop, mon, "raises", f"{cls.__name__}.read_file raised {type(e).__name__}: {e} although read() of the same content succeeded",
-                               dict(tb=core.short_tb(e)), dict(cls=cls.__name__))
+                               dict(tb=core.short_tb(e), bom=bom), dict(cls=cls.__name__, byte_order_mark=bool(bom)))
         with ctx.quiet():
             diff = diff_snapshots(snapshot(a), snapshot(b))
         if diff:
-            return ctx.violate(prop, mon, "differs_from_read", f"{cls.__name__}.read_file gives a different chart than read() of the same content: {diff}", dict(diff=diff), dict(cls=cls.__name__))
+            return ctx.violate(prop, mon, "differs_from_read", f"{cls.__name__}.read_file gives a different chart than read() of the same content: {diff}", dict(diff=diff, bom=bom), dict(cls=cls.__name__, byte_order_mark=bool(bom)))
         ctx.held(mon, cls.__name__)
+        ctx.state("fileio.read_file.case", (cls.__name__, bool(bom)))
     finally:
         shutil.rmtree(d, ignore_errors=True)
+
+
+def check_c_locale(ctx, prop, game):
+    """write_file / read_file in a process whose default text encoding is not UTF-8 (POSIX "C" locale, UTF-8 mode off): the
+    file on disk must still be write() in UTF-8 and read_file must give the metadata back.  One child interpreter per call."""
+    import json
+    import subprocess
+    import sys
+
+    mon = "fileio.c_locale"
+    here = os.path.dirname(os.path.dirname(os.path.abspath(__file__)))
+    env = {k: v for k, v in os.environ.items() if not k.startswith("LC_") and k not in ("LANG", "LANGUAGE", "PYTHONIOENCODING")}
+    env.update(LC_ALL="C", LANG="C", PYTHONUTF8="0", PYTHONCOERCECLOCALE="0", PYTHONHASHSEED="0")
+    try:
+        r = subprocess.run([sys.executable, "-X", "utf8=0", os.path.join(here, "locale_child.py"), core.REPO, game], capture_output=True, timeout=300, env=env)
+        line = [ln for ln in r.stdout.decode("ascii", "replace").split("\n") if ln.startswith("RESULT ")]
+        out = json.loads(line[-1][7:]) if line else None
+    except Exception as e:
+        out = None
+        r = None
+    if out is None or os.path.realpath(out.get("reamber", "")) != os.path.realpath(os.path.join(core.REPO, "reamber")):
+        ctx.counters[f"{mon}|child_failed"] += 1
+        ctx.notes.append(f"c-locale child gave no result for {game}: {None if r is None else r.stderr.decode('ascii', 'replace')[-300:]}")
+        return
+    if out.get("preferred_encoding", "").lower().replace("-", "") in ("utf8",) or out.get("utf8_mode"):
+        return ctx.ood(mon, "platform_has_no_non_utf8_locale")
+    feat = dict(game=game, c_locale=True)
+    if "write_file_raises" in out:
+        return ctx.violate(prop, mon, "write_file_raises", f"{game} write_file under the C locale (default encoding {out['preferred_encoding']}) raised {out['write_file_raises']}", out, feat)
+    if out.get("disk_hex") != out.get("want_hex"):
+        return ctx.violate(prop, mon, "not_utf8_on_disk", f"{game} write_file under the C locale put other bytes on disk than write() in UTF-8", dict(out, want_hex=out["want_hex"][:400], disk_hex=out.get("disk_hex", "")[:400]), feat)
+    if "read_file_raises" in out or out.get("read_back") != out.get("want_field"):
+        return ctx.violate(prop, mon, "read_back", f"{game} read_file under the C locale: {out.get('read_file_raises') or repr(out.get('read_back'))} instead of {out.get('want_field')!r}", dict(out, want_hex="", disk_hex=""), feat)
+    ctx.held(mon, game)
+    ctx.state("fileio.c_locale", (game, out["preferred_encoding"]))
